@@ -40,7 +40,7 @@ ASSUMPTIONS = [
     "the calibration side is driven through the scheduler API exactly as Calibrator.calibrate() does (session(), get_next_sampler(), update()) in two thirds of the cases and by a real Calibrator.calibrate() (scripted losses) in one third",
     "non-negative losses; once the best loss is exactly 0.0 no later batch can improve it, so the reward rule never divides by zero",
 ]
-REQUIRED_COUNTERS = {"s7_agent_state_vs_learn_log": 500, "cases_with_a_failing_batch": 3, "cases_via_real_calibrator": 8, "schedules": 2000, "preempted_multi_session": 500, "cases": 30, "free_runs": 60, "free_line_events": 5000}
+REQUIRED_COUNTERS = {"s7_agent_state_vs_learn_log": 500, "cases_with_a_failing_batch": 2, "cases_via_real_calibrator": 8, "schedules": 2000, "preempted_multi_session": 500, "cases": 30, "free_runs": 60, "free_line_events": 5000}
 SHARDS = {"quick": 16, "thorough": 16}
 SHARD_WATCHDOG = {"quick": 1500, "thorough": 10800}
 
